@@ -228,10 +228,16 @@ extern int mpt_connection_dispatch(MPT_STRUCT(connection) *con, MPT_TYPE(event_h
 	/* no message id */
 	if (!ilen) {
 		MPT_STRUCT(message) msg = MPT_MESSAGE_INIT;
+		int len;
 		msg.base = data + hlen;
 		msg.used = buf->_used - hlen;
 		ev.msg = &msg;
-		return cmd(arg, &ev);
+		len = cmd(arg, &ev);
+		/* datagram is processed, must not precede next outgoing message */
+		if (!(con->out.state & MPT_OUTFLAG(Active)) && (buf = con->out.buf._buf)) {
+			buf->_used = 0;
+		}
+		return len;
 	}
 	/* got reply message */
 	if (data[0] & 0x80) {
@@ -257,7 +263,12 @@ extern int mpt_connection_dispatch(MPT_STRUCT(connection) *con, MPT_TYPE(event_h
 		/* request is answered, deregister handler */
 		reply = ans->cmd;
 		ans->cmd = 0;
-		if ((len = reply(ans->arg, &msg)) < 0) {
+		len = reply(ans->arg, &msg);
+		/* datagram is processed, must not precede next outgoing message */
+		if (!(con->out.state & MPT_OUTFLAG(Active)) && (buf = con->out.buf._buf)) {
+			buf->_used = 0;
+		}
+		if (len < 0) {
 			mpt_log(0, _func, MPT_LOG(Error), "%s (%i)",
 			        MPT_tr("reply processing failed"), len);
 			return MPT_ERROR(MissingBuffer);
@@ -315,6 +326,10 @@ extern int mpt_connection_dispatch(MPT_STRUCT(connection) *con, MPT_TYPE(event_h
 			msg.used = sizeof(hdr);
 			msg.cont = 0;
 			rc->_vptr->reply(rc, &msg);
+		}
+		/* datagram is processed, must not precede next outgoing message */
+		if (!(con->out.state & MPT_OUTFLAG(Active)) && (buf = con->out.buf._buf)) {
+			buf->_used = 0;
 		}
 		return ret;
 	}
